@@ -16,7 +16,8 @@ SIZES0 = [0, 1, 4095, 4096, 10 ** 6, 2 ** 32 + 1]          # the last one is spa
 FUSE_WRITEBACK_CACHE, FUSE_HANDLE_KILLPRIV_V2 = 1 << 16, 1 << 28
 NAMES = [b'f0', b'...', b'f2', b'..f3', b'f4', b'..data']    # some names start with dots: ordinary files
 O_TRUNC, O_APPEND, O_EXCL, O_NONBLOCK = 0o1000, 0o2000, 0o200, 0o4000
-FATTR_MODE, FATTR_SIZE = 1, 8
+O_CREAT, O_DIRECT, O_DIRECTORY, O_NOFOLLOW, O_CLOEXEC, O_SYNC, O_PATH, O_TMPFILE = 0x40, 0x4000, 0x10000, 0x20000, 0x80000, 0x101000, 0x200000, 0x410000
+FATTR_MODE, FATTR_SIZE, FATTR_FH = 1, 8, 64
 EPERM, EBADF, EINVAL = 1, 9, 22
 U64 = 2 ** 64 - 1
 
@@ -80,11 +81,14 @@ class Inst:
             rep = cl.msg(OP['FALLOCATE'], self.nodes[r['file']], struct.pack('<QQQII', fh, r['off'], r['len'], r['mode'], 0))
         elif k == 'setattr':
             valid = FATTR_SIZE if r['with_size'] else FATTR_MODE
+            fh = 0
+            if r.get('fh') is not None:                      # FATTR_FH: through the handle in that slot
+                valid |= FATTR_FH; fh = 0 if self.no_open else self.fh.get(r['fh'], 0xdead0000 + r['fh'])
             rep = cl.msg(OP['SETATTR'], self.nodes[r['file']],
-                         struct.pack('<IIQQQQQQIIIIIIII', valid, 0, 0, r['size'], 0, 0, 0, 0, 0, 0, 0, 0o100644, 0, 0, 0, 0))
+                         struct.pack('<IIQQQQQQIIIIIIII', valid, 0, fh, r['size'], 0, 0, 0, 0, 0, 0, 0, 0o100644, 0, 0, 0, 0))
         elif k == 'release':
             fh = self.fh.get(r['slot'], 0xdead0000 + r['slot'])
-            rep = cl.msg(OP['RELEASE'], self.nodes[r['file']], struct.pack('<QIIQ', fh, 0, 0, 0))
+            rep = cl.msg(OP['RELEASE'], self.nodes[r['file']], struct.pack('<QIIQ', fh, r.get('rlflags', 0), 0, 0))
             if isinstance(rep, tuple) and rep[0] == 0: self.fh.pop(r['slot'], None)
         else:
             raise ValueError(k)
@@ -98,10 +102,35 @@ def coq_req(r):
     if k == 'create': return 'Create %d %d %d' % (r['slot'], r['file'], r['flags'])
     if k == 'write': return 'Write %d %d %d %d %d' % (r['slot'], r['file'], r['off'], r['len'], r['wflags'])
     if k == 'fallocate': return 'Fallocate %d %d %d %d %d' % (r['slot'], r['file'], r['mode'], r['off'], r['len'])
-    if k == 'setattr': return 'Setattr %d %s %d' % (r['file'], 'true' if r['with_size'] else 'false', r['size'])
+    if k == 'setattr': return 'Setattr %d %s %d %s' % (r['file'], 'true' if r['with_size'] else 'false', r['size'], 'None' if r.get('fh') is None else '(Some %d)' % r['fh'])
     if k == 'release': return 'Release %d %d' % (r['slot'], r['file'])
     if k == 'read': return 'Read %d %d %d' % (r['slot'], r['file'], r['rflags'])
     if k == 'raw': return 'raw opcode %d' % r['opcode']
+
+def coq_hist(seal, no_open, fx, wb, dio, cases):
+    """(hist_check ...) over observations; Ob = sizes as after the previous request (elaborating the size vector of every
+    step costs more than evaluating the model)"""
+    obs = []; prev = list(SIZES0)
+    for r, e, a in cases:
+        if list(a) == prev: obs.append('Ob (%s) %d' % (coq_req(r), e))
+        else: obs.append('Oz (%s) %d [%s]' % (coq_req(r), e, '; '.join(map(str, a)))); prev = list(a)
+    z = '[%s]' % '; '.join(map(str, SIZES0))
+    return '(hist_check tie_host (mk_cfg %s %s %s %s %s) %d (init_state %s) %s [%s])' % (
+        'true' if seal else 'false', 'true' if no_open else 'false', coq_fixes(fx), 'true' if wb else 'false', 'true' if dio else 'false',
+        len(SIZES0), z, z, ';\n '.join(obs))
+
+def balanced(exprs, nbins):
+    """order the expressions so that consecutive shards of equal length carry about the same amount of text:
+    -> (permuted list, shard length, position -> original index)"""
+    nbins = max(1, min(nbins, len(exprs)))
+    per = (len(exprs) + nbins - 1) // nbins
+    bins = [[] for _ in range(nbins)]; load = [0] * nbins
+    for i in sorted(range(len(exprs)), key=lambda i: -len(exprs[i])):
+        k = min((b for b in range(nbins) if len(bins[b]) < per), key=lambda b: load[b])
+        bins[k].append(i); load[k] += len(exprs[i])
+    order = []                      # shards are cut every `per` items: full bins first
+    for b in sorted(range(nbins), key=lambda b: -len(bins[b])): order += bins[b]
+    return [exprs[i] for i in order], per, order
 
 def around(rng, size, ln):
     c = [0, size, max(0, size - ln), max(0, size - ln + 1), max(0, size - 1), size + 1, size // 2, rng.randrange(size + 1), size + 4096]
@@ -192,6 +221,71 @@ def boundary_history(f, size, no_open):
     H.append({'op': 'release', 'slot': 0, 'file': f})
     return H
 
+def flag_words():
+    """the flag words of the deterministic flag block: every bit 0..31 alone (as it comes and with each access mode),
+    with O_APPEND, with O_TRUNC; access mode 3; composite words (O_SYNC, O_TMPFILE, O_PATH|O_DIRECTORY, all ones ...)"""
+    W = []
+    def add(x):
+        x &= 0xffffffff
+        if x not in W: W.append(x)
+    for b in range(32):
+        w = 1 << b
+        for x in (w, w | 1, w | 2, w | 2 | O_APPEND, w | 2 | O_TRUNC, w | O_TRUNC, w | 1 | O_APPEND): add(x)
+    TB = 0x400000
+    for x in (0, 3, 3 | O_TRUNC, 3 | O_APPEND, 2 | O_APPEND | O_TRUNC, O_SYNC | 2, O_TMPFILE | 2, O_TMPFILE | 2 | O_TRUNC, O_TMPFILE, O_PATH | O_DIRECTORY,
+              O_PATH | O_TRUNC | O_APPEND | 2, O_CREAT | O_EXCL | O_TRUNC | 2, O_CREAT | O_TRUNC | 1, O_NOFOLLOW | O_TRUNC, O_DIRECTORY | O_TRUNC | 2,
+              0xffffffff, 0xffffffff & ~O_DIRECT, 0xffffffff & ~(O_DIRECT | O_APPEND), 0xffffffff & ~(O_DIRECT | O_APPEND | O_PATH | O_DIRECTORY | TB),
+              0xffffffff & ~(O_DIRECT | O_APPEND | O_TRUNC | O_PATH | O_DIRECTORY | TB | O_EXCL), O_DIRECT | O_TRUNC | O_APPEND | 1): add(x)
+    return W
+
+def flag_block(no_open, f, size, words):
+    """deterministic: each word of `words` in the flags field of every request that carries an open-flags word, on the
+    pre-existing non-empty file f: READ and WRITE (inside, beyond EOF) on a long-lived handle / on the per-request
+    descriptor of no_open; OPEN and CREATE with the word, then WRITE / READ / FALLOCATE / SETATTR(FH) through the handle
+    they return, RELEASE with the word"""
+    H = []
+    if not no_open: H.append({'op': 'open', 'slot': 0, 'file': f, 'flags': 2})
+    for i, w in enumerate(words):
+        H.append({'op': 'read', 'slot': 0, 'file': f, 'rflags': w})
+        H.append({'op': 'write', 'slot': 0, 'file': f, 'off': size - 1, 'len': 1, 'wflags': w, 'wfuse': 4 * (i & 1)})
+        H.append({'op': 'write', 'slot': 0, 'file': f, 'off': size, 'len': 1, 'wflags': w})
+        H.append({'op': 'open', 'slot': 2, 'file': f, 'flags': w, 'ofuse': i & 1})
+        if not no_open:
+            H.append({'op': 'write', 'slot': 2, 'file': f, 'off': 0, 'len': 1, 'wflags': w})
+            H.append({'op': 'read', 'slot': 2, 'file': f, 'rflags': w})
+            H.append({'op': 'write', 'slot': 2, 'file': f, 'off': size - 1, 'len': 1, 'wflags': 2})
+            H.append({'op': 'fallocate', 'slot': 2, 'file': f, 'mode': 0, 'off': 0, 'len': 1})
+            H.append({'op': 'fallocate', 'slot': 2, 'file': f, 'mode': 0, 'off': size, 'len': 1})
+            H.append({'op': 'setattr', 'file': f, 'with_size': bool(i % 3), 'size': size + 1 if i % 3 else 0, 'fh': 2})
+            H.append({'op': 'release', 'slot': 2, 'file': f, 'rlflags': w})
+        H.append({'op': 'create', 'slot': 2, 'file': f, 'flags': w})
+        if not no_open:
+            H.append({'op': 'write', 'slot': 2, 'file': f, 'off': size - 1, 'len': 2 - (i & 1), 'wflags': w})
+            H.append({'op': 'release', 'slot': 2, 'file': f, 'rlflags': w})
+        elif i % 4 == 0:
+            H.append({'op': 'fallocate', 'slot': 0, 'file': f, 'mode': 0, 'off': 0, 'len': 1})
+            H.append({'op': 'fallocate', 'slot': 0, 'file': f, 'mode': 0, 'off': size, 'len': 1})
+            H.append({'op': 'setattr', 'file': f, 'with_size': True, 'size': size - 1, 'fh': 0})
+    if not no_open: H.append({'op': 'release', 'slot': 0, 'file': f})
+    return H
+
+def unsealed_flag_history(no_open, f=3):
+    """validates host_open / host_setfl of the model on an UNSEALED export: every bit with O_TRUNC in OPEN and CREATE (truncates
+    unless the word carries O_PATH / O_DIRECTORY / __O_TMPFILE / O_EXCL on create), the size restored by SETATTR, and the same
+    words on WRITE / READ (F_SETFL ignores O_TRUNC)"""
+    H = []; size = SIZES0[f]
+    if not no_open: H.append({'op': 'open', 'slot': 0, 'file': f, 'flags': 2})
+    for b in range(32):
+        if (1 << b) == O_DIRECT: continue
+        w = (1 << b) | 2 | O_TRUNC
+        for op in ('open', 'create'):
+            H.append({'op': op, 'slot': 2, 'file': f, 'flags': w})
+            if not no_open: H.append({'op': 'release', 'slot': 2, 'file': f})
+            H.append({'op': 'setattr', 'file': f, 'with_size': True, 'size': size})
+        H.append({'op': 'write', 'slot': 0, 'file': f, 'off': 0, 'len': 1, 'wflags': w})
+        H.append({'op': 'read', 'slot': 0, 'file': f, 'rflags': w})
+    return H
+
 class raw_sweep_proxy:
     """the sweep needs the instance (node ids, handle): it is materialised when iterated inside sealed_history"""
     def __init__(self, f): self.f = f
@@ -245,7 +339,8 @@ def classify(r, sizes):
     'within' (stays within the size: must behave as unsealed), 'neutral'"""
     k = r['op']
     if k in ('open', 'create'):
-        return 'change' if (r['flags'] & O_TRUNC and not (k == 'create' and r['flags'] & O_EXCL)) else 'neutral'
+        # O_PATH makes the host ignore O_TRUNC: such a request cannot change a size
+        return 'change' if (r['flags'] & O_TRUNC and not r['flags'] & O_PATH and not (k == 'create' and r['flags'] & O_EXCL)) else 'neutral'
     if k == 'write':
         if r['wflags'] & O_APPEND and r['len'] > 0: return 'change'       # appends past EOF whatever the offset
         return 'change' if r['off'] + r['len'] > sizes[r['file']] else 'within'
@@ -292,7 +387,10 @@ def probe_refusal_closes_fd(bindir, base, findings):
 def sig_of(r):
     k = r['op']
     if k in ('open', 'create'): return {'op': k.upper(), 'flag': 'O_TRUNC'} if r['flags'] & O_TRUNC else {'op': k.upper()}
-    if k == 'write': return {'op': 'WRITE', 'flag': 'O_APPEND'} if r['wflags'] & O_APPEND else {'op': 'WRITE'}
+    if k in ('write', 'read'):
+        w = r['wflags'] if k == 'write' else r['rflags']
+        names = [n for n, b in (('O_TRUNC', O_TRUNC), ('O_APPEND', O_APPEND)) if w & b and (k == 'write' or b == O_TRUNC)]
+        return {'op': k.upper(), 'flag': '|'.join(names)} if names else {'op': k.upper()}
     if k == 'fallocate': return {'op': 'FALLOCATE', 'mode': r['mode']}
     return {'op': k.upper()}
 
@@ -310,7 +408,9 @@ def run_check(tier, seed):
     rng = random.Random(seed)
     quick = tier == 'quick'
     t0 = time.time()
+    import pure_tie; pure_tie.prepare(PROP, ev, broken)      # Gen/RustPure.v from the function bodies in REPO (PROP_src_* theorems)
     std_audit(ev, PROP, broken)
+    pure_tie.after_audit(PROP, broken)                         # a source tie broke: look for a concrete differing input
     log('C18: coq audit %.1fs' % (time.time() - t0)); t0 = time.time()
     ok, out, bindir = cargo_build(['seal'], features=['async-io'])
     if not ok:
@@ -322,7 +422,7 @@ def run_check(tier, seed):
     evals = 0; nontriv = set(); samples = []; exprs = []; meta = []
     base = os.path.join(SCRATCH, 'c18-tree')
 
-    def sealed_history(H, no_open, kind, opts, verb, label, tie=True, raw=None):
+    def sealed_history(H, no_open, kind, opts, verb, label, tie=True, raw=None, flagspec=None):
         """run H on a sealed export (S) with an unsealed one (U) in lockstep; judge; optionally queue the Coq replay.
         `raw`: list of (request, class) judged by the predicate only (request fields outside the model)"""
         nonlocal evals
@@ -342,11 +442,11 @@ def run_check(tier, seed):
                 except FuseError as ex:
                     findings.append({'what': 'sealed export: the server process died on %s (%s)' % (coq_req(r), str(ex)[:80]),
                                      'input': {'config': cfgd, 'request': {k: v for k, v in r.items() if not callable(v)}, 'sizes_before': before,
-                                               'prefix': [coq_req(x) for x, _, _ in cases][-15:]}, 'sig': dict(sig_of(r), kind='server-abort')})
+                                               'prefix': [coq_req(x) for x, _, _ in cases[-15:]]}, 'sig': dict(sig_of(r), kind='server-abort')})
                     break
                 after = S.sizes(); evals += 1
                 inp = {'config': cfgd, 'request': {k: v for k, v in r.items() if not callable(v)}, 'sizes_before': before, 'sizes_after': after, 'errno': e,
-                       'prefix': [coq_req(x) for x, _, _ in cases][-12:]}
+                       'prefix': [coq_req(x) for x, _, _ in cases[-12:]]}
                 if e in ('panic', 'noreply'):
                     findings.append({'what': 'sealed export: request %s -> %s' % (r['op'], e), 'input': inp, 'sig': dict(sig_of(r), anomaly=e)}); break
                 if after != before:
@@ -370,54 +470,86 @@ def run_check(tier, seed):
                 nontriv.add((r['op'], cls, e, no_open, label if raw is not None else '', r.get('flags', r.get('wflags', r.get('mode', r.get('rflags', 0))))))
                 cases.append((r, e, after))
             if tie and raw is None:
-                exprs.append('(hist_check tie_host (mk_cfg true %s %s %s) %d (init_state [%s]) [%s])' % (
-                    'true' if no_open else 'false', coq_fixes(fx), 'true' if wb else 'false', len(SIZES0), '; '.join(map(str, SIZES0)),
-                    ';\n '.join('(%s, %d, [%s])' % (coq_req(r), e, '; '.join(map(str, a))) for r, e, a in cases)))
+                if flagspec is not None and len(cases) == len(H) and all(list(a) == SIZES0 for _, _, a in cases):
+                    # the requests of a flag block are generated inside Coq from the words (Model/Seal.v flag_block = flag_block here)
+                    z = '[%s]' % '; '.join(map(str, SIZES0)); ff, ws = flagspec
+                    exprs.append('(flag_check tie_host (mk_cfg true %s %s %s %s) %d (init_state %s) %s %d %d [%s] [%s])' % (
+                        'true' if no_open else 'false', coq_fixes(fx), 'true' if wb else 'false', 'false' if 'no_direct_io=1' in opts else 'true',
+                        len(SIZES0), z, z, ff, SIZES0[ff], '; '.join(map(str, ws)), '; '.join(str(e) for _, e, _ in cases)))
+                else:
+                    exprs.append(coq_hist(True, no_open, fx, wb, 'no_direct_io=1' not in opts, cases))
                 meta.append({'config': cfgd, 'requests': [coq_req(r) for r, _, _ in cases], 'errnos': [e for _, e, _ in cases], 'sizes': [a for _, _, a in cases]})
             if len(samples) < 3 and cases: samples.append({'config': cfgd, 'first_requests': [(coq_req(r), e, a) for r, e, a in cases[:4]]})
         finally:
             S.close()
             if U is not None: U.close()
 
+    # cells of the deterministic flag block: the default cell gets every word, the others (other decoders / other word
+    # adjustments) every bit with O_RDWR, with O_TRUNC, and the composite words
+    allw = flag_words()
+    fewer = allw if not quick else [0, 1, 2, 2 | O_TRUNC] + [w for w in allw if (w & 3) == 2 and bin(w & ~(3 | O_TRUNC)).count('1') == 1] + allw[-21:]
+    direct = [w for w in allw if w & O_DIRECT]
+    flag_cells = [('', 'msg', 'default', 'passthrough', allw), ('', 'amsg', 'async entry points', 'passthrough', fewer),
+                  ('writeback=1', 'msg', 'writeback', 'passthrough', fewer), ('no_direct_io=1', 'msg', 'allow_direct_io=false', 'passthrough', direct if quick else allw)]
+    if not quick: flag_cells += [('killpriv_v2=1', 'amsg', 'Vfs async killpriv', 'vfs', allw), ('inode_file_handles=1', 'msg', 'inode_file_handles', 'passthrough', allw)]
+    ev.cov['flag_block'] = {'words': len(allw), 'words_other_cells': len(fewer), 'cells': [c[2] for c in flag_cells],
+                            'single_bits': sorted(b for b in range(32) if (1 << b) in allw)}
     # configuration cells (each crossed with the requests on which it matters: the boundary histories)
     CELLS = [('', 'msg', 'default'), ('', 'amsg', 'async entry points'), ('inode_file_handles=1', 'msg', 'inode_file_handles'),
              ('killpriv_v2=1', 'msg', 'killpriv_v2'), ('writeback=1', 'msg', 'writeback'), ('no_direct_io=1', 'msg', 'allow_direct_io=false'),
              ('writeback=1 killpriv_v2=1 inode_file_handles=1', 'amsg', 'all knobs, async')]
+    # C18_BLOCKS=flags,... runs only the named blocks (diagnosis; the registered check runs all of them)
+    only = [b for b in os.environ.get('C18_BLOCKS', '').split(',') if b]
+    on = lambda b: not only or b in only
+    if only: ev.cov['blocks_only'] = only
     try:
-        evals += probe_refusal_closes_fd(bindir, base, findings)
+        if on('probe'): evals += probe_refusal_closes_fd(bindir, base, findings)
         for no_open in (0, 1):
             # ---- deterministic: one boundary history per pre-existing file, default configuration, both fs kinds
-            for f in range(len(SIZES0)):
+            for f in range(len(SIZES0) if on('boundary') else 0):
                 sealed_history(boundary_history(f, SIZES0[f], no_open), no_open, 'passthrough', '', 'msg', 'boundary f%d' % f)
-            sealed_history(boundary_history(2, SIZES0[2], no_open), no_open, 'vfs', '', 'msg', 'boundary f2 through Vfs')
+            if on('boundary'): sealed_history(boundary_history(2, SIZES0[2], no_open), no_open, 'vfs', '', 'msg', 'boundary f2 through Vfs')
             # ---- deterministic: every configuration cell x boundary histories of two files (4095 bytes, 4 GiB + 1 sparse)
-            for opts, verb, label in CELLS[1:]:
+            for opts, verb, label in (CELLS[1:] if on('boundary') else []):
                 for f in (2, 5):
                     sealed_history(boundary_history(f, SIZES0[f], no_open), no_open, 'passthrough', opts, verb, 'cell %s, boundary f%d' % (label, f))
-            sealed_history(boundary_history(3, SIZES0[3], no_open), no_open, 'vfs', 'killpriv_v2=1', 'amsg', 'cell Vfs async killpriv, boundary f3')
+            if on('boundary'): sealed_history(boundary_history(3, SIZES0[3], no_open), no_open, 'vfs', 'killpriv_v2=1', 'amsg', 'cell Vfs async killpriv, boundary f3')
             # ---- deterministic: request fields the model does not know, one at a time (predicate only)
-            sealed_history(None, no_open, 'passthrough', '', 'msg', 'field sweep f3', tie=False, raw=raw_sweep_proxy(3))
-            sealed_history(None, no_open, 'passthrough', 'killpriv_v2=1', 'amsg', 'field sweep f1, async', tie=False, raw=raw_sweep_proxy(1))
+            if on('sweep'):
+                sealed_history(None, no_open, 'passthrough', '', 'msg', 'field sweep f3', tie=False, raw=raw_sweep_proxy(3))
+                sealed_history(None, no_open, 'passthrough', 'killpriv_v2=1', 'amsg', 'field sweep f1, async', tie=False, raw=raw_sweep_proxy(1))
+            # ---- deterministic flag block: every bit 0..31 of the flag word of READ / WRITE / OPEN / CREATE / RELEASE (alone, with each
+            # access mode, with O_APPEND, with O_TRUNC; composite words) on pre-existing non-empty files, ordinary handles and no_open;
+            # replayed in Coq (openat_word / setfl_word / host_open / host_setfl) except the O_DIRECT words (their data path depends on
+            # the alignment rules of the host file system), which are judged by the predicate only
+            for opts, verb, label, kind, words in (flag_cells if on('flags') else []):
+                plain = [w for w in words if not w & O_DIRECT]; direct = [w for w in words if w & O_DIRECT]
+                chunks = [plain[i:i + 40] for i in range(0, len(plain), 40)]
+                for ci, ws in enumerate(chunks):
+                    f = (3, 2, 4, 1, 5)[ci % 5]
+                    sealed_history(flag_block(no_open, f, SIZES0[f], ws), no_open, kind, opts, verb, 'flag words %d/%d, cell %s, f%d' % (ci + 1, len(chunks), label, f),
+                                   tie='inode_file_handles=1' not in opts, flagspec=(f, ws))
+                if direct:
+                    sealed_history(flag_block(no_open, 3, SIZES0[3], direct), no_open, kind, opts, verb, 'flag words with O_DIRECT, cell %s, f3' % label,
+                                   tie='no_direct_io=1' in opts, flagspec=(3, direct))
             # ---- random histories: default cell mostly, the other cells in turn
-            for hi in range(nh):
+            for hi in range(nh if on('random') else 0):
                 opts, verb, label = CELLS[hi % len(CELLS)] if hi % 2 else CELLS[0]
                 kind = 'vfs' if hi % 6 == 5 else 'passthrough'
                 sealed_history(gen_history(rng, 45, no_open), no_open, kind, opts, verb, 'random')
             # ---- unsealed runs: validate the host model used in the theorems' instance
-            for hi in range(max(8, nh // 4)):
+            for hi in range(-1, max(8, nh // 4)) if on('unsealed') else []:
                 opts = 'writeback=1' if hi % 4 == 3 else ''
                 U = Inst(bindir, base + '-v', 0, no_open, 'passthrough', opts, 'amsg' if hi % 4 == 1 else 'msg')
                 try:
                     # mode bit 128 (FALLOC_FL_WRITE_ZEROES) exists only on recent kernels: not part of the host model
-                    H = gen_history(rng, 40, no_open, [m for m in FALLOC_MODES if m < 128]); cases = []
+                    H = gen_history(rng, 40, no_open, [m for m in FALLOC_MODES if m < 128]) if hi >= 0 else unsealed_flag_history(no_open); cases = []
                     for r in H:
                         before = U.sizes(); concretize(rng, r, before, 1 << 23)
                         e = U.send(r); after = U.sizes(); evals += 1
                         if e in ('panic', 'noreply'): break
                         cases.append((r, e, after))
-                    exprs.append('(hist_check tie_host (mk_cfg false %s %s %s) %d (init_state [%s]) [%s])' % (
-                        'true' if no_open else 'false', coq_fixes(fx), 'true' if opts else 'false', len(SIZES0), '; '.join(map(str, SIZES0)),
-                        ';\n '.join('(%s, %d, [%s])' % (coq_req(r), e, '; '.join(map(str, a))) for r, e, a in cases)))
+                    exprs.append(coq_hist(False, no_open, fx, bool(opts), True, cases))
                     meta.append({'config': {'seal_size': False, 'no_open': bool(no_open), 'options': opts}, 'requests': [coq_req(r) for r, _, _ in cases], 'errnos': [e for _, e, _ in cases], 'sizes': [a for _, _, a in cases]})
                 finally:
                     U.close()
@@ -426,9 +558,10 @@ def run_check(tier, seed):
     log('C18: implementation runs %.1fs (%d requests, %d histories)' % (time.time() - t0, evals, len(exprs))); t0 = time.time()
     if not any(b['kind'] in ('proof', 'hygiene') for b in broken) and exprs:
         from c16 import check_cases_sep
-        fails, errs = check_cases_sep('c18', COQ_HEADER, exprs, shard=max(4, (len(exprs) + 15) // 16), timeout=600)
+        pexprs, per, order = balanced(exprs, NPROC)
+        fails, errs = check_cases_sep('c18', COQ_HEADER, pexprs, shard=per, timeout=600)
         for e in errs: broken.append({'kind': 'correspondence', 'name': 'coq evaluation of cases failed', 'log': e['log'][-800:]})
-        for i in fails:
+        for i in sorted(order[j] for j in fails):
             broken.append({'kind': 'correspondence', 'name': 'Model/Seal.v run vs Server+PassthroughFs (errno and sizes after every request)', 'case': meta[i]})
         ev.cov['model_vs_impl_histories'] = len(exprs)
     log('C18: coq model comparison %.1fs' % (time.time() - t0))
